@@ -177,6 +177,10 @@ func genReq(r *gen.Rand, cf conf, nkeys int) rq {
 	if cf.ExpGen && r.Chance(3, 4) || r.Chance(1, 8) {
 		q.ExpSec = r.Range(1, 5)
 	}
+	if cf.ExpGen && r.Chance(1, 7) {
+		// the generator answers with zero or a sub-second lifetime for this response
+		q.ExpSec, q.SubSec = 0, []string{"0", "0", "1", "500", "999"}[r.Intn(5)]
+	}
 	q.Enc = r.Chance(1, 4)
 	if r.Chance(1, 25) {
 		q.Sleep = r.Range(1, 2)
